@@ -1056,7 +1056,10 @@ def exec_catstack(torch, tensordict, case):
         return res
     cd = ["td", rshape, [["a", list(ea.shape), ea.reshape(-1).tolist()], ["n.b", list(eb.shape), eb.reshape(-1).tolist()]]]
     kw = {} if out is None else {"out": out}
+    mem0 = members_state(torch, Wout) if (Wout is not None and outk != "dense") else None
     l = guarded(lambda: fn([w.lazy for w in Ws], rawdim, **kw))
+    if mem0 is not None:
+        res["out_members_changed"] = members_state(torch, Wout) != mem0
     res["lazy_raised"] = l[1] if l[0] == "raise" else None
     if l[0] == "raise":
         res["verdict"] = "lazy-raise"
@@ -1211,6 +1214,9 @@ def model_lines(case):
         if op[3] == "ok":
             pos = len(tree[2]) if op[1] == "append" else op[2]
             out.append(("read", sx([Sym("insert"), t, pos, tree_sx(new)])))
+    elif k == "cat" and op[3] in ("lazy", "lazy_other_sd") and signature(case, {})["pattern"] == "out-is-lazy-and-out.stack_dim==dim" \
+            and all(s > 0 for s in op[2]):
+        out.append(("catout", sx([Sym("cat-out"), sum(op[2]), list(op[2])])))
     elif k == "cat" and op[3] == "none":
         R = len(shape)
         dim = op[1] + R if op[1] < 0 else op[1]
@@ -1321,6 +1327,17 @@ def compare_case(R, case, res, mres):
             elif isinstance(m, list) and m[0] == "ok" and m[1][0] == "member":
                 if res.get("is_member") != [m[1][1]]:
                     R.mismatch(k + ":identity", case, res.get("is_member"), m[1])
+    if "catout" in mres:
+        m = mres["catout"]
+        n += 1
+        if res.get("lazy_raised") and not str(res["lazy_raised"]).startswith("materialise:"):
+            io = "raises"
+        elif res.get("out_members_changed") is False:
+            io = "out-unchanged"
+        else:
+            io = "written"
+        if io != m[2]:
+            R.mismatch("_lazy_cat(out=):offsets", case, io, m)
     if "write" in mres:
         m = mres["write"]
         if m in ("out-of-model", "out-of-fuel"):
